@@ -124,7 +124,8 @@ def decide(pid, P, tier, seed, replay, scratch, t0):
             # corpus first
             corp = os.path.join(VERIF, "corpus", pid, name + ".jsonl")
             if os.path.exists(corp) and not replay:
-                st, mm = engine.run_domain(scratch, harness_bin, driver_bin, name, seed, run_tier, replay=corp, extra_env=env_extra)
+                st, mm = engine.run_domain(scratch, harness_bin, driver_bin, name, seed, run_tier, replay=corp, extra_env=env_extra,
+                                           verdict_keys=dom.get("verdict_keys"))
                 st["corpus"] = True
                 all_stats.append(st)
                 mismatches += mm
@@ -135,7 +136,8 @@ def decide(pid, P, tier, seed, replay, scratch, t0):
                 if "case" not in rp:
                     continue
             st, mm = engine.run_domain(scratch, harness_bin, driver_bin, name, seed, run_tier, replay=replay,
-                                       extra_env=dict(env_extra, **dom.get("env", {})), timeout=dom.get("timeout", 3000))
+                                       extra_env=dict(env_extra, **dom.get("env", {})), timeout=dom.get("timeout", 3000),
+                                       verdict_keys=dom.get("verdict_keys"))
             all_stats.append(st)
             mismatches += mm
 
@@ -162,7 +164,8 @@ def decide(pid, P, tier, seed, replay, scratch, t0):
                 continue
             wp = os.path.join(VERIF, w)
             rp = json.load(open(wp))
-            st, mm = engine.run_domain(scratch, harness_bin, driver_bin, rp["domain"], seed, tier, replay=wp, extra_env=env_extra)
+            vk = next((d.get("verdict_keys") for d in P["domains"] if d["name"] == rp["domain"]), None)
+            st, mm = engine.run_domain(scratch, harness_bin, driver_bin, rp["domain"], seed, tier, replay=wp, extra_env=env_extra, verdict_keys=vk)
             if mm:
                 known_hits.setdefault(f["id"], []).extend(mm)
             else:
